@@ -174,6 +174,13 @@ func (p *Program) termOf1(v ssa.Value, busy map[ssa.Value]bool, depth int) *Term
 		}
 		return t
 	case *ssa.Alloc:
+		// the address of a spilled by-value parameter (`func (p T) M() { helper(&p) }`) designates the
+		// parameter itself: pointers are transparent (see addrBaseTerm)
+		if whole, byField := p.storesTo(v); len(whole) == 1 && len(byField) == 0 {
+			if par, ok := whole[0].(*ssa.Parameter); ok {
+				return rec(par)
+			}
+		}
 		// the address itself (pointer value): composite literal / new / spilled local
 		return mk("alloc", typeStr(v.Type()), v)
 	case *ssa.MakeSlice:
